@@ -57,7 +57,7 @@ Definition ovmap (l : list (N * fov)) (n : N) : fov := get_or l n neutral.
 Definition splice_fails (unsafe : list N) (opt : topts) (ovs : list (N * fov)) (fs : list (field N)) : bool :=
   existsb (fun f => included N opt (ovmap ovs) f && mem_N (key_of N opt (ovmap ovs) f) unsafe) fs.
 
-Definition run_struct (unsafe : list N) (recheck kw_last : bool) (m : tmode) (opt : topts) (ovs : list (N * fov)) (typed : list N)
+Definition run_struct (unsafe : list N) (recheck kw_last by_kw : bool) (m : tmode) (opt : topts) (ovs : list (N * fov)) (typed : list N)
                       (fs : list (field N)) (p : payload) : outcome :=
   (* attributes listed in [typed] go through the tagging handler; the others are passed through raw *)
   let hs := fun n v => if mem_N n typed then hsN n v else hsId n v in
@@ -67,7 +67,7 @@ Definition run_struct (unsafe : list N) (recheck kw_last : bool) (m : tmode) (op
            | MDetailed => tpl_detailed N KN opt (ovmap ovs) hs recheck fs (obj_of p)
            | MFast => tpl_fast N KN opt (ovmap ovs) hs kw_last fs (obj_of p)
            | MInterpDict => tpl_interp_dict N KN hs fs (obj_of p)
-           | MInterpTuple => tpl_interp_tuple N KN hs fs (obj_of p)
+           | MInterpTuple => tpl_interp_tuple N KN hs by_kw fs (obj_of p)
            end in
   match r with Ok i => XOk i | Err e => XErr (eclass_of e) | OutOfFuel => XFuel end.
 
@@ -141,25 +141,25 @@ Inductive tcase :=
 | TStruct (m : tmode) (opt : topts) (ovs : list (N * fov)) (typed : list N) (fs : list (field N)) (p : payload) (expect : outcome)
 | TUnstruct (m : umode) (opt : topts) (ovs : list (N * fov)) (typed : list N) (fs : list (field N)) (i : list (N * N)) (expect : outcome).
 
-Definition tcase_ok (unsafe : list N) (recheck kw_last : bool) (c : tcase) : bool :=
+Definition tcase_ok (unsafe : list N) (recheck kw_last by_kw : bool) (c : tcase) : bool :=
   match c with
-  | TStruct m opt ovs typed fs p x => outcome_eqb (run_struct unsafe recheck kw_last m opt ovs typed fs p) x
+  | TStruct m opt ovs typed fs p x => outcome_eqb (run_struct unsafe recheck kw_last by_kw m opt ovs typed fs p) x
   | TUnstruct m opt ovs typed fs i x => outcome_eqb (run_unstruct unsafe m opt ovs typed fs i) x
   | TTd dv opt ovs typed fs p x => outcome_eqb (run_td_struct unsafe dv opt ovs typed fs p) x
   | TTdUn opt ovs typed fs i x => outcome_eqb (run_td_unstruct unsafe opt ovs typed fs i) x
   end.
 
-Definition tcase_model (unsafe : list N) (recheck kw_last : bool) (c : tcase) : outcome :=
+Definition tcase_model (unsafe : list N) (recheck kw_last by_kw : bool) (c : tcase) : outcome :=
   match c with
-  | TStruct m opt ovs typed fs p _ => run_struct unsafe recheck kw_last m opt ovs typed fs p
+  | TStruct m opt ovs typed fs p _ => run_struct unsafe recheck kw_last by_kw m opt ovs typed fs p
   | TUnstruct m opt ovs typed fs i _ => run_unstruct unsafe m opt ovs typed fs i
   | TTd dv opt ovs typed fs p _ => run_td_struct unsafe dv opt ovs typed fs p
   | TTdUn opt ovs typed fs i _ => run_td_unstruct unsafe opt ovs typed fs i
   end.
 
-Fixpoint bad_tcases (unsafe : list N) (recheck kw_last : bool) (k : nat) (cs : list tcase) : list nat :=
+Fixpoint bad_tcases (unsafe : list N) (recheck kw_last by_kw : bool) (k : nat) (cs : list tcase) : list nat :=
   match cs with
   | [] => []
-  | c :: r => if tcase_ok unsafe recheck kw_last c then bad_tcases unsafe recheck kw_last (S k) r
-              else k :: bad_tcases unsafe recheck kw_last (S k) r
+  | c :: r => if tcase_ok unsafe recheck kw_last by_kw c then bad_tcases unsafe recheck kw_last by_kw (S k) r
+              else k :: bad_tcases unsafe recheck kw_last by_kw (S k) r
   end.
